@@ -385,6 +385,23 @@ fn c16b_ipv4prefix_from_str_10() {
     check_v4_from_str(s);
 }
 
+/// IPv6 prefix text: no panic for any string of up to 6 ASCII bytes (long
+/// enough for "::/129" and "::1/0"); accepted => length <= 128, host bits zero.
+// vk: timeout=900; bound=0..=6 ASCII bytes
+#[kani::proof]
+#[kani::unwind(8)]
+fn c16b_ipv6prefix_from_str_6() {
+    let (buf, len) = any_ascii::<6>();
+    let Ok(s) = std::str::from_utf8(&buf[..len]) else { return };
+    let r = Ipv6Prefix::from_str(s);
+    if let Ok(p) = r {
+        assert!(p.addr_len <= 128);
+        assert!(p.addr_len == 128 || p.addr.to_bits() & (u128::MAX >> p.addr_len) == 0);
+    }
+    kani::cover!(r.is_ok());
+    kani::cover!(r.is_err() && len == 6 && buf[0] == b':' && buf[1] == b':' && buf[2] == b'/');
+}
+
 #[kani::proof]
 #[kani::unwind(8)]
 fn c16b_asnumber_from_str_6() {
